@@ -12,6 +12,54 @@ pub mod roles;
 /// Constants.
 pub mod constants;
 
+/// Public entries to crate-private state transitions, used only by the solver-based checks in
+/// `/verif` (`--cfg gmsol_verif`).
+#[cfg(gmsol_verif)]
+pub mod verif_hooks {
+    use crate::states::{Config, GtBank};
+    use anchor_lang::prelude::*;
+
+    /// See `Config::set_gt_factor`.
+    pub fn set_gt_factor(config: &mut Config, factor: u128) -> Result<u128> {
+        config.set_gt_factor(factor)
+    }
+
+    /// See `Config::set_buyback_factor`.
+    pub fn set_buyback_factor(config: &mut Config, factor: u128) -> Result<u128> {
+        config.set_buyback_factor(factor)
+    }
+
+    /// See `GtBank::record_transferred_in`.
+    pub fn record_transferred_in(bank: &mut GtBank, token: &Pubkey, amount: u64) -> Result<()> {
+        bank.record_transferred_in(token, amount)
+    }
+
+    /// See `GtBank::record_transferred_out`.
+    pub fn record_transferred_out(bank: &mut GtBank, token: &Pubkey, amount: u64) -> Result<()> {
+        bank.record_transferred_out(token, amount)
+    }
+
+    /// See `GtBank::reserve_balances`.
+    pub fn reserve_balances(bank: &mut GtBank, numerator: &u128, denominator: &u128) -> Result<()> {
+        bank.reserve_balances(numerator, denominator)
+    }
+
+    /// See `GtBank::confirm_unchecked`.
+    pub fn confirm_unchecked(bank: &mut GtBank, gt_amount: u64) -> Result<()> {
+        bank.confirm_unchecked(gt_amount)
+    }
+
+    /// See `GtBank::record_claimed`.
+    pub fn record_claimed(bank: &mut GtBank, gt_amount: u64) -> Result<()> {
+        bank.record_claimed(gt_amount)
+    }
+
+    /// See `GtBank::remaining_confirmed_gt_amount`.
+    pub fn remaining_confirmed_gt_amount(bank: &GtBank) -> u64 {
+        bank.remaining_confirmed_gt_amount()
+    }
+}
+
 use anchor_lang::prelude::*;
 use gmsol_store::utils::CpiAuthenticate;
 use instructions::*;
